@@ -69,6 +69,8 @@ type FuncSpec struct {
 	Params    []string // for extern funcs declared with a signature
 	GhostVars []GhostVar
 	Skip      bool
+	Reveal    []string
+	PerReturn bool
 	Unroll    map[int]int
 }
 
@@ -87,6 +89,7 @@ type SpecFunc struct {
 	Expr   *SpecExpr
 	File   string
 	Line   int
+	Opaque bool
 }
 
 type SpecParam struct{ Name, Type string }
@@ -218,7 +221,7 @@ func (cs *Contracts) loadContractFile(path, pkgPath string) error {
 		if m := reFuncHdr.FindStringSubmatch(line); m != nil {
 			name := strings.TrimSpace(m[2])
 			fs := &FuncSpec{Short: name, PkgPath: pkgPath, LoopInv: map[int][]Clause{}, LoopDec: map[int]*Clause{}, LoopMod: map[int][]string{},
-				File: path, Line: lineNo, Unroll: map[int]int{}}
+				File: path, Line: lineNo, Unroll: map[int]int{}, PerReturn: true}
 			if m[1] != "" {
 				fs.Extern = true
 				fs.Trusted = true
@@ -270,8 +273,14 @@ func (cs *Contracts) loadContractFile(path, pkgPath string) error {
 			cur.Inline = true
 		case "pure":
 			cur.Pure = true
+		case "reveal":
+			for _, r := range strings.FieldsFunc(rest, func(r rune) bool { return r == ',' || r == ' ' }) {
+				cur.Reveal = append(cur.Reveal, r)
+			}
 		case "skip":
 			cur.Skip = true
+		case "postmode":
+			cur.PerReturn = rest == "per-return"
 		case "nopanic":
 			cur.NoPanic = rest
 		case "loop":
@@ -424,6 +433,11 @@ func parseSpecFunc(kind, rest string) (*SpecFunc, error) {
 		return nil, fmt.Errorf("bad spec function header: %s", rest)
 	}
 	sf := &SpecFunc{Name: strings.TrimSpace(rest[:lp])}
+	if strings.HasPrefix(sf.Name, "opaque ") {
+		// opaque: expanded only inside functions that `reveal` it; an uninterpreted function elsewhere
+		sf.Opaque = true
+		sf.Name = strings.TrimSpace(strings.TrimPrefix(sf.Name, "opaque "))
+	}
 	ps, err := parseParams(rest[lp+1 : rp])
 	if err != nil {
 		return nil, err
@@ -502,6 +516,14 @@ func parseGhostStmt(kind, rest string) (*GhostStmt, error) {
 	case "after", "before":
 		g.Where = w
 		r = strings.TrimSpace(r)
+		if strings.HasPrefix(r, "loop ") {
+			// before/after loop N : expr
+			w2, r2 := splitWord(r[5:])
+			w2 = strings.TrimSuffix(w2, ":")
+			g.Anchor = "loop#" + w2
+			r = strings.TrimSpace(strings.TrimPrefix(strings.TrimSpace(r2), ":"))
+			break
+		}
 		if !strings.HasPrefix(r, "\"") {
 			return nil, fmt.Errorf("anchor string expected")
 		}
